@@ -208,6 +208,8 @@ int main()
     twof = dict(one, pre_call=fharness("o_@0.filename", "a", NA) + fharness("o_@1.filename", "b", NB2), requires=[FINV(SELF, NA), FINV("$1->filename", NB2), "__verif_exc == 0"], noalias=True)
     F.fn("fn_plus", replay_native=replay("(f + g).filename", "spec_plus(%s, %s)" % (A_, B_), "operator+", True), ensures={
         "plus_joins_with_one_separator_and_an_empty_left_side_is_neutral": "__verif_exc == 0 && rs_same(spec_plus(%s, %s), RET.filename.b, RET.filename.n)" % (RS(SELF), RS("$1->filename"))}, **twof)
+    F.fn("fn_plus_str", replay_native=replay("(f + b).filename", "spec_plus(%s, rs_norm(%s))" % (A_, B_), "operator+(string)", True), ensures={
+        "plus_with_a_string_is_plus_with_the_file_name_made_from_it": "__verif_exc == 0 && rs_same(spec_plus(%s, rs_norm(%s)), RET.filename.b, RET.filename.n)" % (RS(SELF), RS("(*$1)"))}, **dict(two, inline=["fn_ctor_str", "fn_plus"]))
     F.fn("fn_ctor_str", pre_call=fharness("o_@1", "a", NA), requires=[FINV("(*$1)", NA), "__verif_exc == 0"], assigns=["*$0", "__verif_exc"], noalias=True, unwind=FCAP + 2, timeout=600, solver=["--sat-solver", "cadical"],
          replay_native=replay("rkcommon::FileName(a).filename", "rs_norm(%s)" % A_, "FileName(string)"), ensures={
         "constructor_normalises_separators_and_drops_trailing_ones": "__verif_exc == 0 && rs_same(rs_norm(%s), $0->filename.b, $0->filename.n)" % RS("(*$1)"),
@@ -216,7 +218,7 @@ int main()
     # ---- tokenize / split(delimiter set): BOUNDED exact check against a specification function (include/c18_tokens_spec.h)
     TSPEC_H = _os.path.join(_os.path.dirname(SPEC_H), "c18_tokens_spec.h")
     TN = 7 if _os.environ.get("VERIF_TIER_EFFECTIVE") == "thorough" else 5      # characters in the input string
-    TCAP, TTOK = TN + 2, (TN + 1) // 2 + 2
+    TCAP, TTOK = TN + 2, TN + 2
     thelp = ("#define TS_CAP %d\n#define TS_MAXTOK %d\n#define TS_PTR(v, k) ((v)[k].b)\n#define TS_LEN(v, k) ((v)[k].n)\n" % (TCAP, TTOK) + open(TSPEC_H).read()
              + "static _Bool toks_ok(toks want, std_basic_string_char *v, unsigned long cnt) { _Bool res; TOKS_SAME(res, want, v, cnt); return res; }\n")
     T = Unit("c18_tokens", "units/c18_tokens.cpp", helpers=thelp, opts=dict(tracked_vec=True, tracked_str=True, bounded_str=TCAP, bounded_vec=TTOK))
@@ -250,6 +252,35 @@ int main()
          unwind=TCAP + 2, timeout=600, solver=["--sat-solver", "cadical"],
          replay_native=TREPLAY % dict(cap=TCAP, tok=TTOK, spec=TSPEC_H, ca=CA, cb="(char)IN_in_delim", nb="1", keep="0", what="tokenize", call="rkcommon::utility::tokenize(a, d[0], got);"),
          ensures={"tokenize_appends_exactly_the_non_empty_tokens_in_order": "__verif_exc == 0 && toks_ok(spec_tokens($0->b, $0->n, &$1, 1, 0), $2->b, $2->n)"})
+    # split on one character (std::getline on a string stream): the NON-EMPTY tokens are exactly the maximal runs of non-delimiter
+    # characters in order (getline also yields empty tokens between adjacent delimiters; the property speaks about the non-empty ones)
+    T.helpers += """
+static _Bool nonempty_toks_ok(toks want, std_basic_string_char *v, unsigned long cnt, char delim)
+{
+  unsigned long k, j = 0, a;
+  for (k = 0; k < cnt && k < TS_MAXTOK + 3; k++)
+  {
+    for (a = 0; a < v[k].n && a < TS_CAP; a++) if (v[k].b[a] == delim) return 0;          /* no token contains the delimiter */
+    if (v[k].n == 0) continue;
+    if (j >= want.n || j >= TS_MAXTOK || want.t[j].n != v[k].n) return 0;
+    for (a = 0; a < v[k].n && a < TS_CAP; a++) if (want.t[j].c[a] != v[k].b[a]) return 0;
+    j++;
+  }
+  return j == want.n;
+}
+static _Bool case_ok(std_basic_string_char *r, std_basic_string_char *s, int upper)
+{
+  unsigned long i; if (r->n != s->n) return 0;
+  for (i = 0; i < s->n && i < TS_CAP; i++) { char c = s->b[i]; char w = upper ? ((c >= 'a' && c <= 'z') ? (char)(c - 'a' + 'A') : c) : ((c >= 'A' && c <= 'Z') ? (char)(c - 'A' + 'a') : c); if (r->b[i] != w) return 0; }
+  return 1;
+}
+"""
+    T.fn("t_split_char", pre_call=sh("o_@0", "a", TN), requires=["$0->n <= %d" % TN, "__verif_exc == 0"], assigns=["__verif_exc"], unwind=TCAP + 3, timeout=600, solver=["--sat-solver", "cadical"],
+         replay_native=TREPLAY % dict(cap=TCAP, tok=TTOK, spec=TSPEC_H, ca=CA, cb="(char)IN_in_delim", nb="1", keep="0", what="split(char), non-empty tokens,",
+                                      call="{ std::vector<std::string> all = rkcommon::utility::split(a, d[0]); for (auto &t : all) if (!t.empty()) got.push_back(t); }"),
+         ensures={"split_on_a_character_yields_exactly_the_non_empty_tokens_in_order": "__verif_exc == 0 && nonempty_toks_ok(spec_tokens($0->b, $0->n, &$1, 1, 0), RET.b, RET.n, $1)"})
+    T.fn("t_lowerCase", pre_call=sh("o_@0", "a", TN), requires=["$0->n <= %d" % TN, "__verif_exc == 0"], assigns=["__verif_exc"], unwind=TCAP + 3, ensures={"lowerCase_maps_exactly_the_ASCII_capitals": "__verif_exc == 0 && case_ok(&RET, $0, 0)"})
+    T.fn("t_upperCase", pre_call=sh("o_@0", "a", TN), requires=["$0->n <= %d" % TN, "__verif_exc == 0"], assigns=["__verif_exc"], unwind=TCAP + 3, ensures={"upperCase_maps_exactly_the_ASCII_small_letters": "__verif_exc == 0 && case_ok(&RET, $0, 1)"})
     T.fn("t_split_set", pre_call=sh("o_@0", "a", TN) + sh("o_@1", "b", 2), noalias=True, requires=["$0->n <= %d" % TN, "$1->n <= 2", "__verif_exc == 0"], assigns=["__verif_exc"],
          unwind=TCAP + 2, timeout=600, solver=["--sat-solver", "cadical"],
          replay_native=TREPLAY % dict(cap=TCAP, tok=TTOK, spec=TSPEC_H, ca=CA, cb="IN_in_b0, IN_in_b1", nb="IN_in_nb", keep="(int)IN_in_keepDelim", what="split", call="got = rkcommon::utility::split(a, d, (bool)IN_in_keepDelim);"),
@@ -388,10 +419,10 @@ static _Bool parsed_ok(%(VS)s *old, %(VS)s *now)
 
 META = dict(
     level="other",
-    level_text="PARTIAL coverage of the statement; items (4), (5), (6) and (7) are BOUNDED exact checks. (4) FileName: the string constructor, path, base, ext, name, dropExt, setExt, addExt, operator+ and == are extracted and checked with CBMC (bounded unwinding) against specification functions written from the property (include/c18_filename_spec.h: dot and separator of the LAST component, normalisation of separators) for every name of at most 6 characters and every extension / right operand of at most 3 (8 / 4 thorough), arbitrary bytes. (5) tokenize and split(delimiter set, keepDelim) are checked the same way against 'exactly the maximal runs of non-delimiter characters, in order, one-character tokens included' for every string of at most 5 characters (7 thorough) and every delimiter (set of at most 2). (6) PseudoURL: the constructor is checked the same way against a specification function written from the documented format <type>://<file>[:name=value]* (first '://' ends the type, ':'-separated non-empty components, first '=' splits name from value) for every input of at most 7 characters (9 thorough); getType/getFileName return the parsed parts, getValue returns the value of the LAST parameter with the name and throws std::runtime_error exactly when there is none, hasParam is existence (parsed states with at most 3 parameters of at most 2+2 characters). (7) ArgumentList: the (argc, argv) constructor stores argv[1..] in order, operator[] returns a copy of argument i or throws std::out_of_range, size/empty, remove(where, howMany) keeps exactly the other arguments in order, and ArgumentsParser::parseAndRemove -- against an interface stub of the pure virtual tryConsume that consumes by the argument's first character -- keeps exactly the unconsumed arguments of the original list in order (lists of at most 4 arguments of at most 2 characters). (1) removeArgs is extracted from /repo and proved by CBMC (function contract + loop contract, any argc): the count drops by howMany, arguments before `where` are untouched and every later argument moves down by howMany in order (ghost positions). (2) prettyDouble and prettyNumber are extracted and decided by the math back end (z3 over the reals, float literals at their exact binary32 values, snprintf as a recording interface model): for every magnitude in [1e-15, 1e21) (prettyNumber: every size_t) the mantissa handed to the formatter lies in [0.95, 1000.05) -- i.e. prints as 1.0 .. 1000.0 -- and mantissa x 10^(suffix) equals the input within 1e-6 relative; plain numbers are printed unscaled. (3) longestBeginningMatch and beginsWith are extracted and proved by CBMC on a value-tracking std::string model for strings of ANY length up to 2^40: the result of longestBeginningMatch is a common prefix (ghost position), is the longest one, and beginsWith is true only for prefixes and true for every prefix; the same two functions are also checked EXACTLY (full prefix relation, exact common-prefix length) for strings of at most 4 characters with bounded unwinding, which yields natively replayable counterexamples.",
-    level_note="NOT covered (unverified): split on a single character (std::getline on a stringstream), lowerCase/upperCase, FileName::operator-/canonical/homeFolder. The FileName and tokenize/split checks are BOUNDED (string lengths above; std::string and std::vector are bounded CODE models with inline storage, loops unwound with unwinding assertions) -- not proofs for longer strings. Floating point is treated as real arithmetic in (2) (rounding of the division and of %.1f is not modelled). std::string is a value-tracking MODEL; std::mismatch/std::equal/std::min are reference models; the string range constructor is an assumed contract instantiated at ghost positions. removeArgs is proved under its natural precondition 0 <= where, 0 <= howMany, where + howMany <= ac.",
+    level_text="PARTIAL coverage of the statement; items (4), (5), (6) and (7) are BOUNDED exact checks. (4) FileName: the string constructor, path, base, ext, name, dropExt, setExt, addExt, operator+ (FileName and std::string right operands) and == are extracted and checked with CBMC (bounded unwinding) against specification functions written from the property (include/c18_filename_spec.h: dot and separator of the LAST component, normalisation of separators) for every name of at most 6 characters and every extension / right operand of at most 3 (8 / 4 thorough), arbitrary bytes. (5) tokenize, split(delimiter set, keepDelim), split(single character; std::getline on a bounded string-stream model: its non-empty tokens) and lowerCase/upperCase (ASCII letters) are checked the same way against 'exactly the maximal runs of non-delimiter characters, in order, one-character tokens included' for every string of at most 5 characters (7 thorough) and every delimiter (set of at most 2). (6) PseudoURL: the constructor is checked the same way against a specification function written from the documented format <type>://<file>[:name=value]* (first '://' ends the type, ':'-separated non-empty components, first '=' splits name from value) for every input of at most 7 characters (9 thorough); getType/getFileName return the parsed parts, getValue returns the value of the LAST parameter with the name and throws std::runtime_error exactly when there is none, hasParam is existence (parsed states with at most 3 parameters of at most 2+2 characters). (7) ArgumentList: the (argc, argv) constructor stores argv[1..] in order, operator[] returns a copy of argument i or throws std::out_of_range, size/empty, remove(where, howMany) keeps exactly the other arguments in order, and ArgumentsParser::parseAndRemove -- against an interface stub of the pure virtual tryConsume that consumes by the argument's first character -- keeps exactly the unconsumed arguments of the original list in order (lists of at most 4 arguments of at most 2 characters). (1) removeArgs is extracted from /repo and proved by CBMC (function contract + loop contract, any argc): the count drops by howMany, arguments before `where` are untouched and every later argument moves down by howMany in order (ghost positions). (2) prettyDouble and prettyNumber are extracted and decided by the math back end (z3 over the reals, float literals at their exact binary32 values, snprintf as a recording interface model): for every magnitude in [1e-15, 1e21) (prettyNumber: every size_t) the mantissa handed to the formatter lies in [0.95, 1000.05) -- i.e. prints as 1.0 .. 1000.0 -- and mantissa x 10^(suffix) equals the input within 1e-6 relative; plain numbers are printed unscaled. (3) longestBeginningMatch and beginsWith are extracted and proved by CBMC on a value-tracking std::string model for strings of ANY length up to 2^40: the result of longestBeginningMatch is a common prefix (ghost position), is the longest one, and beginsWith is true only for prefixes and true for every prefix; the same two functions are also checked EXACTLY (full prefix relation, exact common-prefix length) for strings of at most 4 characters with bounded unwinding, which yields natively replayable counterexamples.",
+    level_note="NOT covered (unverified): FileName::operator-/canonical/homeFolder. The FileName and tokenize/split checks are BOUNDED (string lengths above; std::string and std::vector are bounded CODE models with inline storage, loops unwound with unwinding assertions) -- not proofs for longer strings. Floating point is treated as real arithmetic in (2) (rounding of the division and of %.1f is not modelled). std::string is a value-tracking MODEL; std::mismatch/std::equal/std::min are reference models; the string range constructor is an assumed contract instantiated at ghost positions. removeArgs is proved under its natural precondition 0 <= where, 0 <= howMany, where + howMany <= ac.",
     explanation="mixed: CBMC function/loop contracts (removeArgs, prefix helpers), z3 real arithmetic VCs (number formatting), bounded exact variants for replay",
     assumptions=["bounded std::string / std::vector code models (FileName, tokenize, split)", "snprintf recording interface model", "floating point treated as real arithmetic (prettyDouble/prettyNumber)", "std::string value-tracking model; std::mismatch/std::equal/std::min reference models", "string range constructor: assumed contract at ghost positions", "strings shorter than 2^40", "allocation never fails"],
     bounded=["FileName operations: names of at most 6 characters, extensions / right operands of at most 3 (8 / 4 thorough), unwind capacity+2", "tokenize / split(set): strings of at most 5 characters (7 thorough), delimiter sets of at most 2 characters, unwind capacity+2", "ArgumentList / parseAndRemove: at most 4 arguments of at most 2 characters", "PseudoURL: constructor inputs of at most 7 characters (9 thorough); accessors on at most 3 parameters with names/values of at most 2 characters", "s_beginsWith#short, s_longestBeginningMatch#short: strings of at most 4 characters, unwind 6 (exact specification; the unbounded variants carry the proof)"],
-    unverified=["split(string, char) via getline", "lowerCase/upperCase", "FileName::operator- / canonical / homeFolder", "decimal rendering of %.1f"],
+    unverified=["FileName::operator- / canonical / homeFolder", "decimal rendering of %.1f"],
 )
